@@ -128,6 +128,8 @@ type Peer struct {
 	RD        api.DeviceRemoteInterface
 	Ctr       uint64
 	W         *World
+	// AckFalse makes Send write an explicit "ackRequest": false where it would otherwise omit the element.
+	AckFalse bool
 
 	pmu    sync.Mutex
 	Panics []string // recovered panics of HandleSpineMesssage (with stack)
@@ -167,7 +169,11 @@ func Datagram(cl model.CmdClassifierType, src, dst *model.FeatureAddressType, mc
 // Send builds, marshals and delivers one datagram; returns its message counter.
 func (p *Peer) Send(cl model.CmdClassifierType, src, dst *model.FeatureAddressType, ack bool, ref *model.MsgCounterType, cmd model.CmdType) model.MsgCounterType {
 	mc := p.NextCounter()
-	b, err := json.Marshal(Datagram(cl, src, dst, mc, ack, ref, cmd))
+	d := Datagram(cl, src, dst, mc, ack, ref, cmd)
+	if !ack && p.AckFalse {
+		d.Datagram.Header.AckRequest = util.Ptr(false)
+	}
+	b, err := json.Marshal(d)
 	if err != nil {
 		panic("harness: cannot marshal datagram: " + err.Error())
 	}
